@@ -34,6 +34,7 @@ fn desc_of(setup: OracleSetup, dev: Dev, slot: u64, now: i64) -> String {
 
 pub fn run(rng: &mut Rng, n: usize, rep: &mut Report) {
     crate::stubs::install();
+    run_staked(rng, (n / 4).max(8), rep);
     let setups = [
         OracleSetup::KaminoPythPush,
         OracleSetup::KaminoSwitchboardPull,
@@ -177,6 +178,202 @@ pub fn run(rng: &mut Rng, n: usize, rep: &mut Report) {
             Dev::WrongVenueKey | Dev::WrongVenueOwner | Dev::WrongVenueDisc | Dev::WrongOracleKey => {
                 if produced {
                     rep.fail(format!("C09 a price was produced from accounts that are not the configured, venue-owned ones: {}", desc));
+                    rep.fail(format!("C08 a substituted oracle / venue account (another bank's or another program's) was accepted: {}", desc));
+                }
+            }
+        }
+    }
+}
+
+// ---------------------------------------------------------------------------------------------------------------
+// the staked-collateral arm (`OracleSetup::StakedWithPythPush`): SOL price feed + pool-token mint + the pool's stake
+// account, all really laid out; the REAL `try_from_bank` does the re-scaling inline, so this is the only way to it.
+
+#[derive(Clone, Copy, Debug, PartialEq)]
+pub enum SDev {
+    None,
+    WrongMintKey,
+    WrongStakeKey,
+    WrongOracleKey,
+    WrongOracleOwner,
+    StalePrice,
+    Unverified,
+}
+
+pub struct StakedCase {
+    pub price: i64,
+    pub ema: i64,
+    pub conf: u64,
+    pub expo: i32,
+    pub stake: u64,
+    pub supply: u64,
+    pub dev: SDev,
+    pub now: i64,
+    pub slot: u64,
+}
+
+/// spot and time-weighted price the real adapter produces (`Ok(Ok(..))`), its error code, or a panic (`Err(())`)
+pub fn staked_eval(c: &StakedCase) -> std::result::Result<std::result::Result<(fixed::types::I80F48, fixed::types::I80F48), u32>, ()> {
+    crate::stubs::install();
+    crate::stubs::set_clock(c.now, c.slot);
+    let clock = Clock { slot: c.slot, epoch_start_timestamp: 0, epoch: 0, leader_schedule_epoch: 0, unix_timestamp: c.now };
+    let okey = Pubkey::new_from_array([3u8; 32]);
+    let mkey = Pubkey::new_from_array([6u8; 32]);
+    let skey = Pubkey::new_from_array([7u8; 32]);
+    let other = Pubkey::new_from_array([9u8; 32]);
+    let mut bank = Bank::default();
+    bank.config.oracle_setup = OracleSetup::StakedWithPythPush;
+    bank.config.oracle_max_age = 60;
+    bank.config.oracle_keys[0] = okey;
+    bank.config.oracle_keys[1] = mkey;
+    bank.config.oracle_keys[2] = skey;
+    let publish = if c.dev == SDev::StalePrice { c.now - 61 } else { c.now - 1 };
+    let upd = PriceUpdateV2 {
+        write_authority: Pubkey::default(),
+        verification_level: if c.dev == SDev::Unverified { VerificationLevel::Partial { num_signatures: 3 } } else { VerificationLevel::Full },
+        price_message: PriceFeedMessage { feed_id: okey.to_bytes(), price: c.price, conf: c.conf, exponent: c.expo, publish_time: publish, prev_publish_time: publish - 1, ema_price: c.ema, ema_conf: c.conf },
+        posted_slot: c.slot,
+    };
+    let mut odata = Vec::new();
+    odata.extend_from_slice(<PriceUpdateV2 as Discriminator>::DISCRIMINATOR);
+    upd.serialize(&mut odata).unwrap();
+    if odata.len() < PriceUpdateV2::LEN { odata.resize(PriceUpdateV2::LEN, 0); }
+    let oowner = if c.dev == SDev::WrongOracleOwner { solana_program::system_program::ID } else { pyth_solana_receiver_sdk::id() };
+    // pool-token mint: a classic SPL mint (82 bytes), 9 decimals
+    let mut mdata = vec![0u8; 82];
+    mdata[36..44].copy_from_slice(&c.supply.to_le_bytes());
+    mdata[44] = 9;
+    mdata[45] = 1; // initialised
+    let mowner = spl_token::ID;
+    // the pool's stake account: StakeStateV2::Stake(meta, stake, flags), bincode/borsh layout written out by hand
+    let mut sdata = vec![0u8; 200];
+    sdata[0..4].copy_from_slice(&2u32.to_le_bytes()); // variant Stake
+    // Meta: rent_exempt_reserve u64, authorized {staker, withdrawer}, lockup {i64, u64, custodian} = 120 bytes (zero)
+    // Stake: delegation { voter 32, stake u64, activation_epoch u64, deactivation_epoch u64, warmup_cooldown_rate f64 }, credits_observed u64
+    let d0 = 4 + 120;
+    sdata[d0 + 32..d0 + 40].copy_from_slice(&c.stake.to_le_bytes());
+    sdata[d0 + 48..d0 + 56].copy_from_slice(&u64::MAX.to_le_bytes()); // not deactivated
+    sdata[d0 + 56..d0 + 64].copy_from_slice(&0.25f64.to_le_bytes());
+    let sowner = solana_program::stake::program::ID;
+    let k0 = if c.dev == SDev::WrongOracleKey { other } else { okey };
+    let k1 = if c.dev == SDev::WrongMintKey { other } else { mkey };
+    let k2 = if c.dev == SDev::WrongStakeKey { other } else { skey };
+    let (mut l0, mut l1, mut l2) = (1u64, 1u64, 1u64);
+    let a0 = AccountInfo::new(&k0, false, false, &mut l0, &mut odata, &oowner, false, 0);
+    let a1 = AccountInfo::new(&k1, false, false, &mut l1, &mut mdata, &mowner, false, 0);
+    let a2 = AccountInfo::new(&k2, false, false, &mut l2, &mut sdata, &sowner, false, 0);
+    let ais = [a0, a1, a2];
+    let r = catch_unwind(AssertUnwindSafe(|| -> anchor_lang::Result<(fixed::types::I80F48, fixed::types::I80F48)> {
+        let ad = OraclePriceFeedAdapter::try_from_bank(&bank, &ais, &clock)?;
+        let p = ad.get_price_of_type(OraclePriceType::RealTime, None, 0)?;
+        let e = ad.get_price_of_type(OraclePriceType::TimeWeighted, None, 0)?;
+        Ok((p, e))
+    }));
+    match r {
+        Err(_) => Err(()),
+        Ok(Ok(v)) => Ok(Ok(v)),
+        Ok(Err(e)) => Ok(Err(crate::errcode(e))),
+    }
+}
+
+fn staked_gen(rng: &mut Rng) -> (i64, i64, u64, u64) {
+    let price: i64 = match rng.below(8) {
+        0 => 0,
+        1 => -(rng.below(1_000_000_000) as i64),
+        2 => rng.next() as i64,
+        3 => i64::MAX - rng.below(3) as i64,
+        _ => 1 + rng.below(1_000_000_000_000) as i64,
+    };
+    let ema: i64 = match rng.below(6) {
+        0 => price,
+        1 => rng.next() as i64,
+        2 => -(rng.below(1_000) as i64),
+        _ => (price as i128 * (95 + rng.below(10) as i128) / 100) as i64,
+    };
+    let supply: u64 = match rng.below(8) {
+        0 => 0,
+        1 => 1 + rng.below(10),
+        2 => rng.u64_mixed(),
+        _ => 1_000_000_000 * (1 + rng.below(5_000_000)),
+    };
+    let stake: u64 = match rng.below(8) {
+        0 => rng.below(1_000_000_000),
+        1 => 1_000_000_000 + rng.below(2),
+        2 => rng.u64_mixed(),
+        3 => u64::MAX - rng.below(3),
+        // around an exchange rate of 1.0 .. 1.3
+        _ => 1_000_000_000u64.saturating_add((supply as u128 * (1000 + rng.below(300) as u128) / 1000).min(u64::MAX as u128 / 2) as u64),
+    };
+    (price, ema, stake, supply)
+}
+
+/// family lines `ig.staked <price> <ema> <stake> <supply> => ok <p> <e> | zero | math | panic` from the REAL adapter
+/// (exponent 0, so the produced I80F48 prices ARE the re-scaled integers)
+pub fn staked_lines(rng: &mut Rng, n: usize, out: &mut Vec<String>) {
+    for _ in 0..n {
+        let (price, ema, stake, supply) = staked_gen(rng);
+        let c = StakedCase { price, ema, conf: 0, expo: 0, stake, supply, dev: SDev::None, now: 1_700_000_000, slot: 1000 };
+        let res = match staked_eval(&c) {
+            Err(()) => "panic".to_string(),
+            Ok(Ok((p, e))) => {
+                let (pb, eb) = (p.to_bits(), e.to_bits());
+                if pb & ((1i128 << 48) - 1) != 0 || eb & ((1i128 << 48) - 1) != 0 { continue; }
+                format!("ok {} {}", pb >> 48, eb >> 48)
+            }
+            Ok(Err(6092)) => "zero".to_string(),
+            Ok(Err(6062)) => "math".to_string(),
+            Ok(Err(_)) => continue,
+        };
+        out.push(format!("ig.staked {} {} {} {} => {}", price, ema, stake, supply, res));
+    }
+}
+
+/// monitor block: the staked arm with one deviation at a time + an independent valuation of what it produced
+pub fn run_staked(rng: &mut Rng, n: usize, rep: &mut Report) {
+    use num_bigint::BigInt;
+    let devs = [SDev::None, SDev::None, SDev::WrongMintKey, SDev::WrongStakeKey, SDev::WrongOracleKey, SDev::WrongOracleOwner, SDev::StalePrice, SDev::Unverified];
+    for i in 0..n {
+        rep.bump("staked_cases");
+        let dev = devs[i % devs.len()];
+        let (price, ema, stake, supply) = staked_gen(rng);
+        let expo = -(rng.below(10) as i32);
+        let now = 1_700_000_000 + rng.range(0, 100_000_000);
+        let c = StakedCase { price, ema, conf: rng.below(1000), expo, stake, supply, dev, now, slot: 5 + rng.below(1_000_000) };
+        let r = staked_eval(&c);
+        let desc = format!("StakedWithPythPush {:?}: SOL price {} / ema {} x 10^{}, pool stake {} lamports, pool-token supply {}", dev, price, ema, expo, stake, supply);
+        let produced = matches!(&r, Ok(Ok(_)));
+        rep.bump(&format!("staked_{}_{:?}", if produced { "priced" } else { "refused" }, dev));
+        if dev != SDev::None {
+            if produced {
+                rep.fail(format!("C09 a price was produced from accounts that are not the configured, authentic, fresh ones: {}", desc));
+                if matches!(dev, SDev::WrongMintKey | SDev::WrongStakeKey | SDev::WrongOracleKey | SDev::WrongOracleOwner) {
+                    rep.fail(format!("C08 a substituted oracle / mint / stake account (another bank's or another program's) was accepted: {}", desc));
+                }
+            }
+            continue;
+        }
+        if let Ok(Ok((p, e))) = r {
+            if supply == 0 || stake < 1_000_000_000 {
+                rep.fail(format!("C09 a staked price was produced from an empty pool (no supply, or less than the non-refundable first SOL): {}", desc));
+                continue;
+            }
+            // independent valuation: (x * (stake - 1 SOL)) / supply toward zero, then x 10^expo, in exact rationals
+            for (which, x, got) in [("spot", price, p), ("time-weighted", ema, e)] {
+                let adj = BigInt::from(x) * BigInt::from(stake - 1_000_000_000);
+                let scale = BigInt::from(10u64).pow((-expo) as u32);
+                // got (2^-48 units) * supply * 10^-expo  <=  x * (stake-1SOL) * 2^48   for x >= 0
+                let lhs = BigInt::from(got.to_bits()) * BigInt::from(supply) * &scale;
+                let rhs = &adj << 48u32;
+                if x > 0 && lhs > rhs {
+                    rep.fail(format!("C09 the staked {} price {} is ABOVE the reported price times the pool's exchange rate: {}", which, got, desc));
+                }
+                if x <= 0 && got > fixed::types::I80F48::ZERO {
+                    rep.fail(format!("C09 a zero or negative reported {} price came out of the staked adapter as the POSITIVE price {}: {}", which, got, desc));
+                }
+                // and not short of it by more than one feed unit + one ulp
+                let unit = (BigInt::from(supply) << 48u32) + BigInt::from(supply) * &scale;
+                if x > 0 && &rhs - &lhs > unit {
+                    rep.fail(format!("C09 the staked {} price {} is short of price x exchange rate by more than one feed unit: {}", which, got, desc));
                 }
             }
         }
